@@ -31,9 +31,9 @@ CLAIMED.update({
 
 CLAIMED.update({
  'C02': dict(
-   technique='Lean 4 proof: ε-copy framing theorem by mutual structural induction (decEps ∘ enc describes the value, consumes exactly the bytes, borrows only at writer blocks), agreement with full copy on serialized streams; differential correspondence on ε-copy results printed from the real DeserType',
-   text='Kernel-checked: decEps_enc / deEps_ser (for every well-formed type, well-typed value, name and digest: from a buffer whose base is a multiple of every block unit, deserialize_eps returns a result whose erasure is the value and consumes exactly the bytes written), eps_full_agree_on_ser (both modes describe the same value and consume the same bytes on serialized streams). The correspondence prints ε-copy results through a Show trait implemented on the ε types themselves (borrowed slices/strs/refs with their offsets, rebuilt vectors, fully copied fields), so the substitution actually performed by rustc is compared with the model.',
-   note='agreement of the two modes on *arbitrary* byte strings is only exercised by the correspondence (mutated streams), not a theorem (and false for strings: the ε-copy reader does not validate UTF-8, the full-copy reader panics on invalid UTF-8).',
+   technique='Lean 4 proof: ε-copy framing theorem by mutual structural induction (decEps ∘ enc describes the value, consumes exactly the bytes, borrows only at writer blocks); agreement of the two readers on arbitrary bytes by a second mutual induction (ε-copy result ⇒ full-copy value), with the exact hypothesis under which it holds; differential correspondence on ε-copy results printed from the real DeserType',
+   text='Kernel-checked: decEps_enc / deEps_ser (for every well-formed type, well-typed value, name and digest: from a buffer whose base is a multiple of every block unit, deserialize_eps returns a result whose erasure is the value and consumes exactly the bytes written), eps_full_agree_on_ser (both modes describe the same value and consume the same bytes on serialized streams), eps_full_agree_any_bytes / deEps_deFull_agree_any_bytes (for ANY byte string, type and base address: whenever deserialize_eps returns a result whose borrowed strings are valid UTF-8, deserialize_full returns the value that result describes and consumes the same bytes), full_on_slice_agrees (fields read with the full-copy methods inside an ε-copy read get the value the plain full-copy reader gets), eps_accepts_invalid_utf8 (the UTF-8 hypothesis cannot be dropped: a witness where ε-copy returns a &str and full-copy panics — confirmed on the real code). The correspondence prints ε-copy results through a Show trait implemented on the ε types themselves (borrowed slices/strs/refs with their offsets, rebuilt vectors, fully copied fields), so the substitution actually performed by rustc is compared with the model.',
+   note='the ε-copy reader does not validate UTF-8 (it transmutes the bytes): on corrupted input it returns an invalid &str where the full-copy reader panics; this is outside the property (which speaks of serialized bytes) and recorded as an observation in DESIGN 10.4.',
    design='5/C02'),
  'C12': dict(
    technique='Lean 4 proof: both directions of placement by mutual structural induction (aligned ⇒ value, any misplaced block ⇒ AlignmentError at the first one), tied by running the real deserialize_eps at all 128 base residues',
